@@ -451,3 +451,117 @@ def run_thorough_release(R, rid, root_name):
         raise EngineError("release-profile cross-check disagrees with the dev-profile inventory: %s" % mismatches[:5])
     R.ok(rid + ".release", root_name, "%d functions: raw integer operators in the release MIR = overflow sites of the dev MIR" % n,
          sample={"release_tree_hash": info2.get("hash")})
+
+
+def recursion_rule(R, rid, root_name):
+    """every recursive cycle reachable from the roots is depth-guarded or follows a structure whose depth a guarded function bounds"""
+    P = R.prog
+    R.rule(rid, "stack depth: every recursive call-graph component reachable from the entry points passes through the parser's depth guard "
+                "or recurses over a structure whose depth a guarded parser function bounds (tables/recursion.json)")
+    with open(os.path.join(VERIF, "tables", "recursion.json")) as fh:
+        tab = json.load(fh)["components"]
+    reach = P.reachable(roots(R, root_name))
+    cg = P.callgraph()
+    g = {a: set(b for b in cg.get(a, ()) if b in reach) for a in reach}
+    # Tarjan (iterative)
+    index, low, onst, st, comps = {}, {}, set(), [], []
+    counter = [0]
+    for root in sorted(g):
+        if root in index:
+            continue
+        work = [(root, iter(sorted(g[root])))]
+        index[root] = low[root] = counter[0]
+        counter[0] += 1
+        st.append(root)
+        onst.add(root)
+        while work:
+            v, it = work[-1]
+            adv = False
+            for w in it:
+                if w not in index:
+                    index[w] = low[w] = counter[0]
+                    counter[0] += 1
+                    st.append(w)
+                    onst.add(w)
+                    work.append((w, iter(sorted(g[w]))))
+                    adv = True
+                    break
+                elif w in onst:
+                    low[v] = min(low[v], index[w])
+            if adv:
+                continue
+            work.pop()
+            if work:
+                low[work[-1][0]] = min(low[work[-1][0]], low[v])
+            if low[v] == index[v]:
+                comp = []
+                while True:
+                    w = st.pop()
+                    onst.discard(w)
+                    comp.append(w)
+                    if w == v:
+                        break
+                if len(comp) > 1 or v in g[v]:
+                    comps.append(comp)
+
+    def constructs_guard(fn):
+        return any(s_["rv"]["k"] == "aggr" and s_["rv"].get("variant") == "TooDeepExpression" for _, s_ in fn.stmts())
+
+    guard_fns = set(k for k, f in P.fns.items() if constructs_guard(f))
+    guard_callers = set(guard_fns)
+    for k, f in P.fns.items():
+        if any(k2 in guard_fns for c in f.calls for k2 in P.callee_keys(f, c)):
+            guard_callers.add(k)
+    for comp in comps:
+        names = sorted(P.fns[k].spath for k in comp)
+        named = [n for n in names if "{closure" not in n] or names
+        key = named[0]
+        ent = [e for e in tab if e["contains"] in names]
+        loc = P.fns[comp[0]].loc()
+        if not ent:
+            R.violation(rid, "unbounded|" + key,
+                        "recursive functions %s are reachable from the entry points without a depth bound: input that nests deeply enough overflows "
+                        "the stack (abort, not an error)" % named[:4], [loc])
+            continue
+        e = ent[0]
+        if e["mode"] == "guarded":
+            rest = set(comp) - guard_callers
+            # is the rest acyclic?
+            sub = {a: set(b for b in g[a] if b in rest) for a in rest}
+            cyc = _has_cycle(sub)
+            if not cyc and (set(comp) & guard_callers):
+                R.ok(rid, key, "every cycle passes the depth guard (%d functions)" % len(comp), loc, sample={"reason": e["reason"]})
+            else:
+                R.violation(rid, "unguarded|" + key, "the recursive component %s has a cycle that does not pass the depth guard" % named[:4], [loc])
+        else:
+            gf = P.fn(e["guard_in"])
+            if gf is not None and (gf.key in guard_callers):
+                R.ok(rid, key, "bounded through %s" % e["guard_in"].split("::")[-1], loc, sample={"reason": e["reason"]})
+            else:
+                R.violation(rid, "bound-missing|" + key,
+                            "%s recurses over a structure whose depth %s was supposed to bound, but that function no longer enforces the bound"
+                            % (named[:3], e["guard_in"]), [loc])
+
+
+def _has_cycle(g):
+    color = {}
+    for s in g:
+        if s in color:
+            continue
+        stack = [(s, iter(g[s]))]
+        color[s] = 1
+        while stack:
+            v, it = stack[-1]
+            adv = False
+            for w in it:
+                if color.get(w) == 1:
+                    return True
+                if w not in color:
+                    color[w] = 1
+                    stack.append((w, iter(g[w])))
+                    adv = True
+                    break
+            if not adv:
+                color[v] = 2
+                stack.pop()
+    return False
